@@ -70,6 +70,10 @@ impl Ranges {
     pub fn covers_prefix(&self, n: u64) -> bool {
         n == 0 || self.v.first().is_some_and(|&(x, y)| x == 0 && y >= n)
     }
+    /// how many of the offsets [0, n) are in the set
+    pub fn covered_below(&self, n: u64) -> u64 {
+        self.v.iter().map(|&(x, y)| y.min(n).saturating_sub(x.min(n))).sum()
+    }
     pub fn max_end(&self) -> u64 {
         self.v.last().map_or(0, |x| x.1)
     }
